@@ -274,6 +274,12 @@ func (b *histBuilder) prepend(u string, lo, hi int, wire string) {
 	b.expect = append(b.expect, fmt.Sprintf("prepend-ok:%d", lo))
 }
 
+// badprepend: events lo..hi that do not connect to update u: refused, u unchanged
+func (b *histBuilder) badprepend(u string, lo, hi int, wire string) {
+	b.steps = append(b.steps, map[string]any{"t": "prepend", "u": u, "from": lo, "to": hi, "wire": wire})
+	b.expect = append(b.expect, "prepend-err")
+}
+
 // mkbadevents: update message from..to whose accumulator is genuine but one event value is altered:
 // every application must fail and leave the witness as it was
 func (b *histBuilder) mkbadevents(id string, from, to, k int) {
@@ -494,6 +500,10 @@ func randomQR(g *Rng, n *big.Int) *big.Int {
 
 func genC09(g *Rng, tier string, emit func(Op)) {
 	keys := []*KeyPair{toyKey("toy1", 3), fixedKey("k1024a", true)}
+	// a short key whose group order (about 158 bits) lies below the longer revocation values
+	shortKey := shortRevKey("short160", 160)
+	emit(declKey(shortKey))
+	emit(declSk(shortKey))
 	maxRev, maxApps, nrandom, nhist := 3, 2, 3, 2
 	if tier == "thorough" {
 		maxRev, maxApps, nrandom, nhist = 5, 3, 30, 6
@@ -527,6 +537,11 @@ func genC09(g *Rng, tier string, emit func(Op)) {
 						id := fmt.Sprintf("p%d", k)
 						k++
 						b.mkupdate(id, from, n)
+						if from >= 3 {
+							// first a chunk that does not connect (a gap before the update's first event): it
+							// is refused and leaves the update as it was
+							b.badprepend(id, 1, from-2, wire)
+						}
 						b.prepend(id, lo, hi, wire)
 						for _, wi := range []int{lo - 1, lo, n} {
 							tmp := fmt.Sprintf("t%d_%d", k, wi)
@@ -545,7 +560,20 @@ func genC09(g *Rng, tier string, emit func(Op)) {
 			emit(b.op(kp, nu0, "prepended-chunks-"+wire))
 		}
 	}
-	for _, kp := range keys {
+	for _, kp := range append(append([]*KeyPair{}, keys...), shortKey) {
+		revPrime := revPrime
+		if kp == shortKey {
+			// values longer than the group order of this key
+			revPrime = func(g *Rng) *big.Int {
+				for {
+					x := g.exactBits(165 + g.intn(25))
+					x.SetBit(x, 0, 1)
+					if x.ProbablyPrime(20) {
+						return x
+					}
+				}
+			}
+		}
 		for nrev := 1; nrev <= maxRev; nrev++ {
 			for hi := 0; hi < nhist; hi++ {
 				// history: witness w<i> issued at index i; revocation k removes either an earlier
